@@ -410,7 +410,11 @@ def run(cx, tier='quick'):
     rep.floor('SUM-EQ', 2)
     rep.floor('SCAN', 8)
     rep.assumptions += ['semantics of `if c { return false }` chains, `match`/`if let`, ::core::cmp::PartialEq::ne == !eq for lawful impls',
-                        'union PartialEq is covered by C20']
+                        'union PartialEq (byte-wise, `unsafe`-gated) is specified by C20; its summary is evaluated here as well']
+    # the union generator of this trait (byte-wise, SUM-UNION of C20) is part of this trait's derive too
+    from . import c20 as _c20
+    from ..facts import Facts as _Fu
+    _c20.check_partial_eq(cx, rep, _Fu(cx))
     rep.not_decided += ['behaviour of user-supplied comparison methods']
     from .binders import check_binder_injectivity
     check_binder_injectivity(cx, rep, ['::partial_eq::'])
